@@ -303,7 +303,24 @@ func run(r *mon.Run, work string, idx int, rng *mrand.Rand, fx *fixtures, s scen
 		rounds = 2
 	}
 	for round := 0; round < rounds; round++ {
-		ok := oneConnection(r, work, idx, rng, fx, s, c, round, client, backend, public, echKeys, heldConfigs, &seenMu, &seenSNI, &seenALPN)
+		ok := false
+		for attempt := 0; ; attempt++ {
+			stalled := false
+			ok = oneConnection(r, work, idx, rng, fx, s, c, round, client, backend, public, echKeys, heldConfigs, &seenMu, &seenSNI, &seenALPN, &stalled)
+			if !stalled {
+				break
+			}
+			// the watchdog fired: on a loaded machine a 40 KB handshake can take that long. The connection is
+			// tried again (twice); only a scenario that stalls every time is reported (as inconclusive).
+			r.Count("stalled_connections_retried", 1)
+			if attempt == 2 {
+				if r.Counter("stalled") < 3 {
+					r.Inconclusive("scenario %d stalled until the watchdog three times in a row (%+v)", idx, s)
+				}
+				r.Count("stalled", 1)
+				return
+			}
+		}
 		if !ok {
 			return
 		}
@@ -312,7 +329,7 @@ func run(r *mon.Run, work string, idx int, rng *mrand.Rand, fx *fixtures, s scen
 }
 
 func oneConnection(r *mon.Run, work string, idx int, rng *mrand.Rand, fx *fixtures, s scenario, c map[string]any, round int,
-	client, backend, public *tls.Config, echKeys []ech.Key, heldConfigs [][]byte, seenMu *sync.Mutex, seenSNI *string, seenALPN *[]string) bool {
+	client, backend, public *tls.Config, echKeys []ech.Key, heldConfigs [][]byte, seenMu *sync.Mutex, seenSNI *string, seenALPN *[]string, stalled *bool) bool {
 	var cliSide, srvSide net.Conn
 	if s.TCP {
 		ln, err := net.Listen("tcp", "127.0.0.1:0")
@@ -334,7 +351,7 @@ func oneConnection(r *mon.Run, work string, idx int, rng *mrand.Rand, fx *fixtur
 	}
 	defer cliSide.Close()
 	defer srvSide.Close()
-	dl := time.Now().Add(20 * time.Second) // watchdog only: its firing is reported as inconclusive
+	dl := time.Now().Add(30 * time.Second) // watchdog only: its firing is never a verdict (retried, then inconclusive)
 	cliSide.SetDeadline(dl)
 	srvSide.SetDeadline(dl)
 	tapc := &wireTap{Conn: srvSide, maxChunk: s.Chunk}
@@ -495,10 +512,8 @@ func oneConnection(r *mon.Run, work string, idx int, rng *mrand.Rand, fx *fixtur
 		return errors.As(err, &ne) && ne.Timeout() || errors.Is(err, os.ErrDeadlineExceeded)
 	}
 	if isTimeout(herr) || isTimeout(res.err) || isTimeout(cliErr) {
-		if r.Counter("stalled") < 3 {
-			r.Inconclusive("scenario %d stalled until the 20 s watchdog (%+v) client=%v server=%s:%v", idx, s, herr, res.stage, res.err)
-		}
-		r.Count("stalled", 1)
+		*stalled = true
+		c["stall"] = fmt.Sprintf("client=%v server=%s:%v", herr, res.stage, res.err)
 		return false
 	}
 
